@@ -662,7 +662,8 @@ class TransverselyIsotropic(_Elastic):
 
         kt = self.kt
 
-        dtype = object if isinstance(kt, np.ndarray) else float
+        # a field in any of the parameters (kt does not depend on Gl) makes the matrices fields
+        dtype = object if isinstance(kt + Gl, np.ndarray) else float
 
         # Kelvin-Mandel compliance and stiffness matrices in the material's coordinate system.
         # L = (1, 0, 0)
